@@ -16,9 +16,56 @@ from multiprocessing.connection import wait
 _CTX = mp.get_context("fork")
 
 
+def _run_isolated(fn, job, timeout_s, logf):
+    """Run one job in a forked child of this (pristine) worker: nothing a job does to module-level state of the
+    library under test - caches, globals, patched attributes - can leak into the next job, so a result is a
+    function of the job alone and a replay in a fresh process is faithful."""
+    import pickle
+    r, w = os.pipe()
+    pid = os.fork()
+    if pid == 0:
+        code = 0
+        try:
+            os.close(r)
+            try:
+                faulthandler.dump_traceback_later(max(1, timeout_s - 1), file=logf)
+                res = fn(job)
+            except BaseException as e:  # harness problem inside a job
+                res = {"harness_error": f"{type(e).__name__}: {e}", "traceback": traceback.format_exc()[-2000:]}
+            finally:
+                faulthandler.cancel_dump_traceback_later()
+            try:
+                data = pickle.dumps(res, protocol=pickle.HIGHEST_PROTOCOL)
+            except BaseException as e:
+                data = pickle.dumps({"harness_error": f"unpicklable job result: {e}"})
+            with os.fdopen(w, "wb") as f:
+                f.write(data)
+        except BaseException:
+            code = 1
+        finally:
+            os._exit(code)
+    os.close(w)
+    chunks = []
+    with os.fdopen(r, "rb") as f:
+        while True:
+            b = f.read(1 << 16)
+            if not b:
+                break
+            chunks.append(b)
+    os.waitpid(pid, 0)
+    data = b"".join(chunks)
+    if not data:
+        return {"harness_error": "job process died without a result"}
+    try:
+        return pickle.loads(data)
+    except BaseException as e:
+        return {"harness_error": f"cannot read job result: {e}"}
+
+
 def _worker(conn, jobs, fn, init_fn, wid, log_path, timeout_s):
     try:
         signal.signal(signal.SIGINT, signal.SIG_IGN)
+        os.setpgrp()                      # the watchdog kills the whole group (worker + the job's forked child)
         logf = open(log_path, "a") if log_path else sys.stderr
         if init_fn is not None:
             init_fn()
@@ -26,13 +73,7 @@ def _worker(conn, jobs, fn, init_fn, wid, log_path, timeout_s):
             idx = conn.recv()
             if idx is None:
                 return
-            try:
-                faulthandler.dump_traceback_later(max(1, timeout_s - 1), file=logf)
-                res = fn(jobs[idx])
-            except BaseException as e:  # harness problem inside a job
-                res = {"harness_error": f"{type(e).__name__}: {e}", "traceback": traceback.format_exc()[-2000:]}
-            finally:
-                faulthandler.cancel_dump_traceback_later()
+            res = _run_isolated(fn, jobs[idx], timeout_s, logf)
             conn.send((idx, res))
     except (EOFError, KeyboardInterrupt):
         return
@@ -112,9 +153,12 @@ def run_jobs(jobs, fn, nproc=None, timeout_s=120, init_fn=None, log_path=None, p
             if w["idx"] is not None and now - w["t0"] > timeout_s:
                 idx = w["idx"]
                 try:
-                    os.kill(w["proc"].pid, signal.SIGKILL)
+                    os.killpg(w["proc"].pid, signal.SIGKILL)
                 except Exception:
-                    pass
+                    try:
+                        os.kill(w["proc"].pid, signal.SIGKILL)
+                    except Exception:
+                        pass
                 w["proc"].join(timeout=5)
                 try:
                     w["conn"].close()
